@@ -347,6 +347,8 @@ def run(ctx: common.Ctx):
         'separated(sortByStart s) = pairwiseOk s and filter = prunedSublists on every sub-collection; '
         'non-trivial = at least one compatible combination')
     hap_enumerators(ctx)
+    from . import rule_ref
+    rule_ref.check_rule_tables(ctx)
     base = dict(vary=True, per_tx=(1, 7), max_size=6, window=24, witness=False, as_frac=0.3, junction_mnv=0.1)
     res = cv_checks.explore(ctx, ctx.n(220, 4000), dict(base, exception=None, variations=['collapse'], stages=True,
                                                         tvgbuild=True))
